@@ -11,7 +11,7 @@
 (*  layer 2 - dictionaries: DictOps, (Spell, Dict)                                  *)
 (*  layer 3 - stateful components: LintGroup, ConfigOps, IgnoreOps, StatsLog,       *)
 (*                         DictFile, FileDictName, SourceFile, SegmentsOps,           *)
-(*                         StatsSession, PosEncoding                                 *)
+(*                         StatsSession, PosEncoding, CommentLines                   *)
 (*  layer 4 - long-lived objects: JsLinter (harper-wasm), LspServer (harper-ls),     *)
 (*                         EffectsOps (process boundary)                             *)
 EXTENDS Naturals, Sequences
@@ -38,7 +38,8 @@ C02_WellFormed(text, toks, plain) == Co!WellFormed(text, toks, plain, Co!ModelNu
 \* C03  a lint points into the text; a suggestion is an exact local edit
 C03_SpanOk(s, e, len) == Sp!SpanOk(s, e, len)
 C03_Edit(kind, repl, s, e, before, after) == after = Sp!Apply(kind, repl, s, e, before) /\ Sp!LocalEdit(kind, repl, s, e, before, after)
-\* C04  only prose is offered, at its true offset          -> SourceFile!OnlyProseIsMasked, Trace_SourceFile
+\* C04  only prose is offered, at its true offset          -> SourceFile!OnlyProseIsMasked, Trace_SourceFile;
+\*                                                            comment blocks line by line, code fences -> CommentLines!OfferedIsProse
 \* C05  caches are unobservable                            -> LintGroup!CacheUnobservable
 \* C06  reported misspelt exactly when not in the dictionary -> Spell!ListedAccepted, CasedFormsAccepted, UnknownFlagged
 \* C07  added words are accepted and never lost            -> DictFile!NeverLosesExceptKnown, JsLinter!ImportedWordsAccepted,
